@@ -798,13 +798,15 @@ func (s *Store[K, V]) sinkWrite(item WriteBufItem[K, V]) {
 		// update entry policy weight
 		entry.policyWeight += item.costChange
 
-		if item.rechedule {
-			s.timerwheel.schedule(entry)
-		}
-
-		// create/update race
+		// create/update race: the insert event schedules the entry when it arrives.
+		// With the entry pool, an entry that has left the cache since the update was
+		// queued must not be linked into the timer wheel while it sits in the pool
 		if entry.meta.prev == nil {
 			return
+		}
+
+		if item.rechedule {
+			s.timerwheel.schedule(entry)
 		}
 
 		if item.costChange != 0 {
